@@ -4,7 +4,7 @@
 -- expression against the real evaluator / CompositionPoly / verifier pieces) instantiated with an
 -- arbitrary Mathlib field; trace lengths, widths, constraint sets and assertion sets are unbounded.
 import Mathlib.Algebra.Field.ZMod
-import WinterProofs.Lemmas.C17Trace
+import WinterProofs.Lemmas.C17Def
 
 namespace WinterProofs.C17
 open Model.Divisor Model.Composition WinterProofs.C16L WinterProofs.C17L Polynomial
@@ -521,6 +521,100 @@ example (evals c : List (ZMod 17)) (hl : evals.length = 16)
     (by rw [hl]; rfl) (by decide) h
 
 -- ============================================================================================
+-- (j) valid traces: the definition IS a polynomial of degree below n·k
+-- ============================================================================================
+
+/-- **transition numerators of a valid trace are divisible by the transition divisor.**  `ValidTrace`
+    (Lemmas/C17Valid.lean): every transition constraint evaluates to zero on the frame `(s, s + 1)` of the
+    trace for every non-exempt step `s < n − e`, every assertion holds at the steps it names.  The
+    numerator is the constraint composed with the trace polynomials (`exprPoly`: the model's own
+    expression evaluator run over `F[X]`); the divisor `∏_{i<n−e} (X − g^i)` is the polynomial
+    `(X^n − 1)/∏_{k≥n−e}(X − g^k)` of `C16.transition_divisor_poly`.  Converse of
+    `C02.transition_violation_not_divisible`. -/
+theorem transition_numerator_divisible {root : ℕ → Option F} (air : Air F) (P : Prep F)
+    (hg : IsPrimitiveRoot P.g air.n) (mainPolys auxPolys : ℕ → List F) (rands : ℕ → F)
+    (hvalid : ValidTrace root air P mainPolys auxPolys rands) :
+    ∀ c ∈ air.mainCons ++ air.auxCons,
+      (∏ i ∈ Finset.range (air.n - air.e), (X - C (P.g ^ i))) ∣ exprPoly air P mainPolys auxPolys rands c :=
+  fun c hc => exprPoly_dvd root hg hvalid c hc
+
+/-- **boundary numerators of a valid trace are divisible by their assertion divisors**
+    `X^k − g^(k·first)` (`C16.assertion_divisor_zero_set`), for every boundary constraint `prep` delivers
+    (single, periodic and sequence assertions; main and auxiliary segment).  The numerator is the trace
+    column polynomial minus the value polynomial `b(X)` of `BoundaryConstraint::evaluate_at`.  Converse
+    of `C02.assertion_violation_not_divisible`. -/
+theorem boundary_numerator_divisible {root : ℕ → Option F} (air : Air F) (P : Prep F)
+    (hP : prep (fieldOps F root) air = some P) (hn : 0 < air.n) (hg : IsPrimitiveRoot P.g air.n)
+    (haok : AssertOK root air P) (mainPolys auxPolys : ℕ → List F) (rands : ℕ → F)
+    (hvalid : ValidTrace root air P mainPolys auxPolys rands) :
+    (∀ bc ∈ P.main, (X ^ numSteps bc.a air.n - C (P.g ^ (numSteps bc.a air.n * bc.a.first)))
+      ∣ listPoly (mainPolys bc.c.column) - valuePoly bc.c) ∧
+    (∀ bc ∈ P.aux, (X ^ numSteps bc.a air.n - C (P.g ^ (numSteps bc.a air.n * bc.a.first)))
+      ∣ listPoly (auxPolys bc.c.column) - valuePoly bc.c) := by
+  obtain ⟨hm, ha⟩ := valid_bc_roots root hP hn hg haok hvalid
+  exact ⟨fun bc hbc => boundNum_dvd root hn hg (hm bc hbc), fun bc hbc => boundNum_dvd root hn hg (ha bc hbc)⟩
+
+/-- **for a valid trace the definition is a polynomial of degree below `n·k`**, `k` the number of
+    composition columns `num_constraint_composition_columns`: the sum `compositionQ` of the polynomial
+    quotients takes the value `C(x)` of the definition at every `x` off the trace domain.  The degree
+    hypothesis on the AIR is `DeclaredDegreesOK`: the declared `TransitionConstraintDegree` of each
+    transition constraint bounds the degree of the constraint composed with the trace polynomials
+    (decidable sufficient condition: `declaredDegreesOK_of_degBound`). -/
+theorem definition_is_polynomial {root : ℕ → Option F} (air : Air F) (P : Prep F)
+    (hP : prep (fieldOps F root) air = some P) (hn : 0 < air.n) (he : air.e ≤ air.n)
+    (hg : IsPrimitiveRoot P.g air.n) (haok : AssertOK root air P)
+    (mainPolys auxPolys : ℕ → List F) (rands : ℕ → F) (tco bco : List F)
+    (hvalid : ValidTrace root air P mainPolys auxPolys rands)
+    (hdeg : DeclaredDegreesOK air P mainPolys auxPolys rands) :
+    (compositionQ air P mainPolys auxPolys rands tco bco).natDegree
+        < air.n * numCompColumns (air.mainDegs ++ air.auxDegs) air.n air.e ∧
+    ∀ x, x ^ air.n ≠ 1 →
+      defAt (fieldOps F root) air P mainPolys auxPolys rands tco bco x
+        = some ((compositionQ air P mainPolys auxPolys rands tco bco).eval x) :=
+  ⟨compositionQ_natDegree_lt root hP hn hg haok hvalid hdeg tco bco
+      (quotient_degree_lt_columns (air.mainDegs ++ air.auxDegs) air.n air.e hn),
+    fun x hx => compositionQ_eval root hP hn he hg haok hvalid tco bco x hx⟩
+
+/-- **PROPERTY C17 (prover side and verifier side), no polynomial hypothesis.**  For every VALID trace:
+    the columns `CompositionPoly::new` cuts from the composition polynomial trace of the evaluator
+    recombine, at every field point `x` off the trace domain, to the definition `C(x)` — this is
+    `CommittedEqDefinition`, the full statement — and the verifier's `evaluate_constraints` on the frame
+    `(t_j(x), t_j(x·g))` returns the same value.  Moreover the recombination is the polynomial
+    `compositionQ` at EVERY field point (also on the trace domain, where the definition is `0/0`).
+    Hypotheses: the coherence of the domains (`TraceOK`, `hw`, `hroot`, `ho`, `hoff`: the evaluation coset
+    does not meet the trace domain), `hg` (the trace-domain generator has exact order `n`), `AssertOK`
+    (assertions come from the constructors; root coherence for sequence assertions),
+    `DeclaredDegreesOK` (declared constraint degrees bound the actual ones), `hk` (the `k` columns fit
+    the constraint evaluation domain: `columns_le_blowup`). -/
+theorem committed_eq_definition {root : ℕ → Option F} (beq : F → F → Bool)
+    (hbeq : ∀ a b, beq a b = true → a = b) (air : Air F) (P : Prep F)
+    (hP : prep (fieldOps F root) air = some P) (D : Domain F) (threshold : ℕ)
+    (mainPolys auxPolys : ℕ → List F) (rands : ℕ → F) (tco bco : List F)
+    (hok : TraceOK root air P D) (hlen : air.mainCons.length ≤ tco.length)
+    (hw : IsPrimitiveRoot D.wce D.ceSize) (hroot : root (Nat.log2 D.ceSize) = some D.wce) (ho : D.offset ≠ 0)
+    (hg : IsPrimitiveRoot P.g air.n) (haok : AssertOK root air P)
+    (hdeg : DeclaredDegreesOK air P mainPolys auxPolys rands)
+    (hk : air.n * numCompColumns (air.mainDegs ++ air.auxDegs) air.n air.e ≤ D.ceSize)
+    (hoff : ∀ i, (D.ceX (fieldOps F root) i) ^ air.n ≠ 1)
+    (hvalid : ValidTrace root air P mainPolys auxPolys rands) :
+    CommittedEqDefinition root beq air P D threshold mainPolys auxPolys rands tco bco ∧
+    ∀ ctr cols, compositionTrace (fieldOps F root) beq air P D threshold mainPolys auxPolys rands tco bco = some ctr →
+      compositionPoly (fieldOps F root) D ctr (numCompColumns (air.mainDegs ++ air.auxDegs) air.n air.e) = some cols →
+      (∀ x, recombine (fieldOps F root) air.n x (evaluateAt (fieldOps F root) cols x)
+        = (compositionQ air P mainPolys auxPolys rands tco bco).eval x) ∧
+      ∀ x, x ^ air.n ≠ 1 →
+        evaluateConstraints (fieldOps F root) air P (framesOf (fieldOps F root) mainPolys auxPolys P.g x) rands tco bco x
+          = some (recombine (fieldOps F root) air.n x (evaluateAt (fieldOps F root) cols x)) := by
+  obtain ⟨hQdeg, hQ⟩ := definition_is_polynomial air P hP hok.hnpos hok.he hg haok mainPolys auxPolys rands tco bco
+    hvalid hdeg
+  have key := fun ctr cols htrace hcols => committed_eq_definition_partial beq hbeq air P hP D threshold mainPolys
+    auxPolys rands tco bco ctr cols _ hok hlen hw hroot ho htrace hcols hk hoff _ hQdeg hQ
+  refine ⟨fun ctr cols htrace hcols => (key ctr cols htrace hcols).2, fun ctr cols htrace hcols => ?_⟩
+  refine ⟨(key ctr cols htrace hcols).1, fun x hx => ?_⟩
+  rw [verifier_expression_eq_definition air P hP mainPolys auxPolys rands tco bco x hok.he hlen]
+  exact ((key ctr cols htrace hcols).2 x hx).symm
+
+-- ============================================================================================
 -- (i) a complete instance: every hypothesis of the partial theorem discharged
 -- ============================================================================================
 namespace Inst97
@@ -637,6 +731,201 @@ theorem instance97 : ∀ x : ZMod 97,
   (committed_eq_definition_partial (fun a b => decide (a = b)) (fun a b h => of_decide_eq_true h) air97 P97 P97_spec
     D97 63 polys97 (fun _ => []) (fun _ => 0) [7] [11] (List.replicate 16 0) [List.replicate 8 0] 1 traceOK97
     (by decide) eight_primitive (by decide +kernel) (by decide) trace97 cols97 (by decide) hoff97 0 (by simp; decide) hQ97).1
+
+/-- the trace-domain generator `get_root_of_unity(3) = 28^4 = 64` has exact order 8 -/
+theorem g_primitive : IsPrimitiveRoot (64 : ZMod 97) 8 :=
+  IsPrimitiveRoot.mk_of_lt _ (by decide) (by decide) (fun l h0 h8 =>
+    (by decide : ∀ l : Fin 8, 0 < l.val → (64 : ZMod 97) ^ l.val ≠ 1) ⟨l, h8⟩ h0)
+
+theorem assertOK97 : AssertOK root97 air97 P97 where
+  hwf := by
+    intro a ha
+    have ha' : a ∈ [(⟨0, 0, 0, [3]⟩ : Assertion (ZMod 97))] := ha
+    rw [List.mem_singleton] at ha'
+    subst ha'
+    exact Or.inl ⟨rfl, rfl⟩
+  hseq := by
+    intro a ha
+    have ha' : a ∈ [(⟨0, 0, 0, [3]⟩ : Assertion (ZMod 97))] := ha
+    rw [List.mem_singleton] at ha'
+    subst ha'
+    intro h; exact absurd h (by decide)
+
+/-- the constant column 3 is a VALID trace of `air97` -/
+theorem valid97 : ValidTrace root97 air97 P97 polys97 (fun _ => []) (fun _ => 0) where
+  mainLen := by intro j; unfold polys97; split <;> simp [air97]
+  auxLen := by intro j; simp
+  transition := by decide +kernel
+  mainAssertions := by
+    intro a ha
+    have ha' : a ∈ [(⟨0, 0, 0, [3]⟩ : Assertion (ZMod 97))] := ha
+    rw [List.mem_singleton] at ha'
+    subst ha'
+    exact assertionHolds_of_apply root97 (l := [(0, 3)]) rfl (by decide +kernel)
+  auxAssertions := by intro a ha; cases ha
+
+/-- the declared degree `⟨1, []⟩` of `next − cur` bounds its actual degree -/
+theorem degOK97 : DeclaredDegreesOK air97 P97 polys97 (fun _ => []) (fun _ => 0) :=
+  declaredDegreesOK_of_degBound air97 P97 polys97 _ _ valid97.mainLen valid97.auxLen
+    (List.Forall₂.cons (by decide +kernel) List.Forall₂.nil) List.Forall₂.nil
+
+/-- **`committed_eq_definition` on the instance**: every hypothesis discharged, the trace validity by
+    `decide +kernel` -/
+theorem instance97_valid :
+    CommittedEqDefinition root97 (fun a b => decide (a = b)) air97 P97 D97 63 polys97 (fun _ => []) (fun _ => 0) [7] [11] ∧
+    ∀ x : ZMod 97, x ^ 8 ≠ 1 →
+      evaluateConstraints (fieldOps (ZMod 97) root97) air97 P97
+          (framesOf (fieldOps (ZMod 97) root97) polys97 (fun _ => []) P97.g x) (fun _ => 0) [7] [11] x
+        = some (recombine (fieldOps (ZMod 97) root97) 8 x (evaluateAt (fieldOps (ZMod 97) root97) [List.replicate 8 0] x)) := by
+  have hg : IsPrimitiveRoot P97.g air97.n := by
+    have : P97.g = 64 := by decide +kernel
+    rw [this]; exact g_primitive
+  have h := committed_eq_definition (fun a b => decide (a = b)) (fun a b h => of_decide_eq_true h) air97 P97 P97_spec
+    D97 63 polys97 (fun _ => []) (fun _ => 0) [7] [11] traceOK97 (by decide) eight_primitive (by decide +kernel)
+    (by decide) hg assertOK97 degOK97 (by decide) hoff97 valid97
+  exact ⟨h.1, (h.2 _ _ trace97 cols97).2⟩
+
 end Inst97
+
+-- ============================================================================================
+-- (k) a second complete instance with a non-trivial valid trace
+-- ============================================================================================
+namespace Inst97b
+open Inst97
+
+/-- n = 8, TWO exemptions, two columns, one periodic column of cycle 2; constraints
+    `next0 − cur0² − p0` (declared degree 2 with one cycle of 2) and `next1 + cur1 − 13` (degree 1);
+    a single assertion, a two-value sequence assertion with first step 1, and a periodic assertion -/
+def air : Air (ZMod 97) :=
+  ⟨8, 2, 2, 0, [[1, 2]],
+   [.sub (.nxt 0) (.add (.mul (.cur 0) (.cur 0)) (.per 0)), .sub (.add (.nxt 1) (.cur 1)) (.const 13)], [],
+   [⟨2, [2]⟩, ⟨1, []⟩], [],
+   [⟨0, 0, 0, [3]⟩, ⟨0, 1, 4, [10, 2]⟩, ⟨1, 0, 2, [4]⟩], []⟩
+
+def P : Prep (ZMod 97) := (prep (fieldOps (ZMod 97) root97) air).getD ⟨0, 0, [], [], []⟩
+
+theorem P_spec : prep (fieldOps (ZMod 97) root97) air = some P := by
+  have ⟨P', hP⟩ : ∃ P', prep (fieldOps (ZMod 97) root97) air = some P' := ⟨_, rfl⟩
+  unfold P
+  rw [hP]; rfl
+
+/-- the trace columns `3 10 5 26 96 2 6 | 50` (`x' = x² + p`, `p = 1 2 1 2 …`, last row junk) and
+    `4 9 4 9 4 9 4 | 20` as polynomials over the trace domain generated by 64 -/
+def polys : ℕ → List (ZMod 97) := fun j =>
+  if j = 0 then [49, 24, 90, 11, 27, 31, 29, 33] else if j = 1 then [20, 88, 6, 93, 81, 9, 91, 4] else []
+
+/-- the polynomials take the trace cells on the trace domain: the last transition (step 6 → 7) is
+    violated in both columns, only the two exempt steps are not enforced -/
+example : (List.range 8).map (fun s => polyEval (fieldOps (ZMod 97) root97) (polys 0) (64 ^ s))
+      = [3, 10, 5, 26, 96, 2, 6, 50] ∧
+    (List.range 8).map (fun s => polyEval (fieldOps (ZMod 97) root97) (polys 1) (64 ^ s))
+      = [4, 9, 4, 9, 4, 9, 4, 20] := by decide +kernel
+
+theorem traceOK : TraceOK root97 air P D97 where
+  hn := rfl
+  hnpos := by decide
+  he := by decide
+  hB := by decide
+  hw := by decide
+  hr := by decide
+  hg := by decide +kernel
+  hwl := by decide
+  hpow := by
+    intro p hp
+    have : p.length = 2 := by revert p; decide +kernel
+    exact ⟨1, this⟩
+  hdvd := by decide +kernel
+  hproot := by decide +kernel
+  hrepr := by
+    intro bc hbc
+    have h : bc.c.poly.length ≠ 0 ∧ bc.c.poly.length ∣ D97.ceSize ∧
+        bc.c.offsetElem * D97.wce ^ (bc.c.offsetSteps * D97.ceBlowup) = 1 ∧
+        bc.c.offsetSteps * D97.ceBlowup < D97.ceSize := by revert bc; decide +kernel
+    exact ⟨h.1, h.2.1, by decide +kernel, by decide, h.2.2.1, h.2.2.2⟩
+  hsteps := by decide +kernel
+  haux := by decide
+
+theorem mem_asserts {a : Assertion (ZMod 97)} (ha : a ∈ air.mainAsserts ++ air.auxAsserts) :
+    a = ⟨0, 0, 0, [3]⟩ ∨ a = ⟨0, 1, 4, [10, 2]⟩ ∨ a = ⟨1, 0, 2, [4]⟩ := by
+  have ha' : a ∈ [(⟨0, 0, 0, [3]⟩ : Assertion (ZMod 97)), ⟨0, 1, 4, [10, 2]⟩, ⟨1, 0, 2, [4]⟩] := ha
+  simpa using ha'
+
+theorem assertOK : AssertOK root97 air P where
+  hwf := by
+    intro a ha
+    rcases mem_asserts ha with rfl | rfl | rfl
+    · exact Or.inl ⟨rfl, rfl⟩
+    · exact Or.inr ⟨⟨2, rfl⟩, by decide, by decide, Or.inr ⟨by decide, 1, rfl⟩⟩
+    · exact Or.inr ⟨⟨1, rfl⟩, by decide, by decide, Or.inl rfl⟩
+  hseq := by
+    intro a ha
+    rcases mem_asserts ha with rfl | rfl | rfl
+    · intro h; exact absurd h (by decide)
+    · intro _; decide +kernel
+    · intro h; exact absurd h (by decide)
+
+/-- **the trace is valid**: both transition constraints vanish on the frames `(s, s + 1)`, `s < 6`, the
+    three assertions hold at the steps they name — all checked by evaluation -/
+theorem valid : ValidTrace root97 air P polys (fun _ => []) (fun _ => 0) where
+  mainLen := by intro j; unfold polys; split_ifs <;> simp [air]
+  auxLen := by intro j; simp
+  transition := by decide +kernel
+  mainAssertions := by
+    intro a ha
+    rcases mem_asserts (List.mem_append_left _ ha) with rfl | rfl | rfl
+    · exact assertionHolds_of_apply root97 (l := [(0, 3)]) rfl (by decide +kernel)
+    · exact assertionHolds_of_apply root97 (l := [(1, 10), (5, 2)]) rfl (by decide +kernel)
+    · exact assertionHolds_of_apply root97 (l := [(0, 4), (2, 4), (4, 4), (6, 4)]) rfl (by decide +kernel)
+  auxAssertions := by intro a ha; cases ha
+
+/-- … and NOT valid with a single exemption (the frame `(6, 7)` violates the first constraint): the
+    validity predicate distinguishes the enforced from the exempt steps -/
+example : ¬ ∀ s, s < 8 - 1 → ∀ c ∈ air.mainCons ++ air.auxCons,
+    c.eval (fieldOps (ZMod 97) root97) (defEnv root97 air P polys (fun _ => []) (fun _ => 0) (P.g ^ s)) = 0 := by
+  decide +kernel
+
+/-- the declared degrees `⟨2, [2]⟩` (evaluation degree 18) and `⟨1, []⟩` (7) bound the syntactic degree
+    bounds 14 and 7 of the two constraints -/
+theorem degOK : DeclaredDegreesOK air P polys (fun _ => []) (fun _ => 0) :=
+  declaredDegreesOK_of_degBound air P polys _ _ valid.mainLen valid.auxLen
+    (List.Forall₂.cons (by decide +kernel) (List.Forall₂.cons (by decide +kernel) List.Forall₂.nil))
+    List.Forall₂.nil
+
+theorem trace : compositionTrace (fieldOps (ZMod 97) root97) (fun a b => decide (a = b)) air P D97 63
+    polys (fun _ => []) (fun _ => 0) [7, 12] [11, 13, 17]
+      = some [47, 63, 82, 96, 36, 56, 9, 35, 27, 38, 57, 4, 41, 61, 17, 3] := by decide +kernel
+
+/-- the composition polynomial has degree 8: it needs the two columns -/
+theorem cols : compositionPoly (fieldOps (ZMod 97) root97) D97
+    [47, 63, 82, 96, 36, 56, 9, 35, 27, 38, 57, 4, 41, 61, 17, 3] 2
+      = some [[42, 43, 54, 54, 40, 86, 10, 55], [40, 0, 0, 0, 0, 0, 0, 0]] := by decide +kernel
+
+/-- **`committed_eq_definition` on a non-trivial instance** (periodic column, three kinds of assertion,
+    two exemptions, two composition columns): for the valid trace above, the committed columns recombine to
+    the definition at every `x` off the trace domain and the verifier's expression agrees -/
+theorem instance97b :
+    CommittedEqDefinition root97 (fun a b => decide (a = b)) air P D97 63 polys (fun _ => []) (fun _ => 0)
+      [7, 12] [11, 13, 17] ∧
+    ∀ x : ZMod 97, x ^ 8 ≠ 1 →
+      evaluateConstraints (fieldOps (ZMod 97) root97) air P
+          (framesOf (fieldOps (ZMod 97) root97) polys (fun _ => []) P.g x) (fun _ => 0) [7, 12] [11, 13, 17] x
+        = some (recombine (fieldOps (ZMod 97) root97) 8 x (evaluateAt (fieldOps (ZMod 97) root97)
+            [[42, 43, 54, 54, 40, 86, 10, 55], [40, 0, 0, 0, 0, 0, 0, 0]] x)) := by
+  have hg : IsPrimitiveRoot P.g air.n := by
+    have : P.g = 64 := by decide +kernel
+    rw [this]; exact g_primitive
+  have h := committed_eq_definition (fun a b => decide (a = b)) (fun a b h => of_decide_eq_true h) air P P_spec
+    D97 63 polys (fun _ => []) (fun _ => 0) [7, 12] [11, 13, 17] traceOK (by decide) eight_primitive
+    (by decide +kernel) (by decide) hg assertOK degOK (by decide) hoff97 valid
+  exact ⟨h.1, (h.2 _ _ trace cols).2⟩
+
+/-- the conclusion is not an empty statement: at `x = 2` (not in the trace domain) the definition, the
+    verifier's expression and the recombined committed columns are all the same field element -/
+example : (2 : ZMod 97) ^ 8 ≠ 1 ∧
+    defAt (fieldOps (ZMod 97) root97) air P polys (fun _ => []) (fun _ => 0) [7, 12] [11, 13, 17] 2
+      = some (recombine (fieldOps (ZMod 97) root97) 8 2 (evaluateAt (fieldOps (ZMod 97) root97)
+          [[42, 43, 54, 54, 40, 86, 10, 55], [40, 0, 0, 0, 0, 0, 0, 0]] 2)) := by decide +kernel
+
+end Inst97b
 
 end WinterProofs.C17
